@@ -27,7 +27,7 @@ EXHAUSTIVE = {'quick': False, 'thorough': False,
 ASSUMPTIONS = ['statements inside the standard library are not preemption points; interleavings inside one statement are not explored',
                'every thread is a fresh thread or a worker serving requests one after another; the application object is the module default app (redirect needs it)']
 
-KINDS = ['echo', 'post', 'raise_resp', 'abort', 'crash', 'nf', 'na', 'big', 'redirect', 'gen', 'multipart', 'json', 'chunked']
+KINDS = ['echo', 'post', 'raise_resp', 'abort', 'crash', 'nf', 'na', 'big', 'redirect', 'gen', 'multipart', 'json', 'chunked', 'noname_json']
 _APP = {}
 
 
@@ -39,7 +39,7 @@ def get_app():
     app = ombott.default_app()
     for r in list(app.router.routes.values()):
         app.router.remove(r)
-    app.setup({'max_body_size': 300, 'max_memfile_size': 128})
+    app.setup({'max_body_size': 900, 'max_memfile_size': 400})
     rq = app.request
     rs = app.response
 
@@ -110,7 +110,9 @@ def get_app():
         data = u.file.read() if u is not None else b''
         rs.headers['X-Upload'] = getattr(u, 'raw_filename', '-')
         again = rq.POST.get('t')
-        return '|'.join(map(str, (f, again, data, rq.content_type[:19], rq.query_string)))
+        ct = getattr(u, 'content_type', None)
+        cd = u.headers.get('Content-Disposition') if u is not None else None
+        return '|'.join(map(str, (f, again, data, rq.content_type[:19], rq.query_string, getattr(ct, 'value', ct), getattr(cd, 'options', cd))))
 
     def json_():
         j = rq.json
@@ -153,18 +155,22 @@ def make_env(kind, m):
     if kind == 'na':
         return make_environ('DELETE', '/echo/' + m, qs='q=' + m)
     if kind == 'big':
-        return make_environ('POST', '/big', body=(m * 200).encode(), qs='m=' + m)
+        return make_environ('POST', '/big', body=(m * 400).encode(), qs='m=' + m)
     if kind == 'redirect':
         return make_environ('GET', '/redirect', qs='m=' + m, headers={'Host': m + '.example'})
     if kind == 'multipart':
         body = ('--B\r\nContent-Disposition: form-data; name="t"\r\n\r\ntext-' + m + '\r\n--B\r\nContent-Disposition: form-data; name="up"; filename="' + m
-                + '.bin"\r\n\r\nDATA-' + m * 30 + '\r\n--B--\r\n').encode()
+                + '.bin"\r\nContent-Type: image/x-' + m + '\r\n\r\nDATA-' + m * 30 + '\r\n--B--\r\n').encode()
         return make_environ('POST', '/mp', qs='m=' + m, body=body, content_type='multipart/form-data; boundary=B', stream=RecStream(body, ('list', [40, 40, 40])))
     if kind == 'json':
         from ombott.common_helpers import cookie_encode
         body = ('{"m": "' + m + '", "l": [1, 2, 3]}').encode()
         sj = cookie_encode(('sj', {'who': m}), 'k').decode()
         return make_environ('POST', '/json', qs='m=' + m, body=body, content_type='application/json', headers={'Cookie': 'sj="' + sj + '"'})
+    if kind == 'noname_json':
+        # a request error that carries a message of its own (it quotes the part headers), shown to a JSON client
+        body = ('--B\r\nContent-Disposition: form-data; filename="secret-' + m + '.pdf"\r\n\r\nx\r\n--B--\r\n').encode()
+        return make_environ('POST', '/mp', qs='m=' + m, body=body, content_type='multipart/form-data; boundary=B', headers={'Accept': 'application/json'})
     if kind == 'chunked':
         # several chunks with multi-digit sizes and an extension; the stream answers reads one byte at a time
         parts = [('c-' + m) * 3, 'x' * 17, m]
@@ -209,6 +215,10 @@ class Lab:
         if k not in self.solo:
             res, info = self.sched.run([job(self.app, [(kind, m)])], [])
             assert res[0][0] == 'ok', res
+            status = res[0][1][0][0]
+            expect_ok = kind in ('echo', 'post', 'raise_resp', 'gen', 'multipart', 'json', 'chunked', 'redirect')
+            if expect_ok and not status.startswith(('2', '3')):
+                raise AssertionError(f'harness: kind {kind} is meant to succeed but answers {status} when served alone: {res[0][1][0][2][:200]!r}')
             self.solo[k] = (res[0][1][0], info['steps'][0])
         return self.solo[k]
 
@@ -248,7 +258,7 @@ class Lab:
 
 
 PAIRS_QUICK = [('echo', 'echo'), ('echo', 'post'), ('raise_resp', 'echo'), ('crash', 'abort'), ('big', 'big'), ('nf', 'redirect'), ('gen', 'echo'), ('na', 'post'),
-               ('multipart', 'json'), ('json', 'echo'), ('chunked', 'chunked'), ('chunked', 'post')]
+               ('multipart', 'json'), ('json', 'echo'), ('chunked', 'chunked'), ('chunked', 'post'), ('noname_json', 'noname_json'), ('multipart', 'multipart')]
 
 
 def one_preemption(ctx, lab, a, b, stride=1):
